@@ -324,7 +324,11 @@ func runC17(c *Case) {
 				mu.Lock()
 				next := maxReq + 1
 				mu.Unlock()
-				_, e1 := w.cli.Call(context.Background(), "ok.x", wamp.Dict{"ppt_scheme": "bogus"}, wamp.List{1}, nil, nil)
+				var progcb client.ProgressHandler
+				if chance(r, 50) {
+					progcb = func(*wamp.Result) {}
+				}
+				_, e1 := w.cli.Call(context.Background(), "ok.x", wamp.Dict{"ppt_scheme": "bogus"}, wamp.List{1}, nil, progcb)
 				e2 := w.cli.Publish("ok.x", wamp.Dict{"acknowledge": true, "ppt_scheme": "bogus"}, wamp.List{1}, nil)
 				if e1 != nil && e2 != nil {
 					abandoned = []uint64{next, next + 1}
